@@ -67,6 +67,18 @@ type Node struct {
 	// OnEventSync is called synchronously with the executer (which is blocked meanwhile) for every event it publishes.
 	OnEventSync func(n *Node, msg interface{})
 	OnOpen      func(fs *simfs.FS)
+	// CrashArmed: the disk has a crash point armed; node steps run as "the process" and may die in the middle
+	CrashArmed        bool
+	crashK, crashTear int
+	armPending        bool
+	onDied            func()
+	// AlwaysCrashable: every step of this node runs as a killable process, so that a crash point can be armed from
+	// inside a step for that same step; ArmThisStepOnly calls the kill off if the step ends before reaching it
+	AlwaysCrashable bool
+	ArmThisStepOnly bool
+	CrashPower      bool // power loss (un-synced data dropped) rather than a process kill
+	// OnHandOff is called when the node's generator hands a block it signed to the consensus loop (before it is queued)
+	OnHandOff func(n *Node, b *blockchain.Block)
 }
 
 var dbDirs = []string{"/data/blockchain.db", "/data/generator.db", "/data/state.db", "/data/module.db"}
@@ -141,7 +153,7 @@ func (n *Node) Start() (err error) {
 	n.Exec = consensus.NewExecuter(&consensus.ExecuterConfig{CTX: ctx, ABI: n.ABI, Chain: n.Chain, Conn: n.Conn, BlockTime: n.P.BlockTime, BatchSize: n.P.BatchSize})
 	poolCfg := n.P.Pool
 	n.Pool = txpool.NewTransactionPool(&poolCfg)
-	n.Gen = generator.NewGenerator(&generator.GeneratorParams{ABI: n.ABI, Consensus: n.Exec, Pool: n.Pool, Chain: n.Chain})
+	n.Gen = generator.NewGenerator(&generator.GeneratorParams{ABI: n.ABI, Consensus: &eagerConsensus{Executer: n.Exec, n: n}, Pool: n.Pool, Chain: n.Chain})
 	if _, err := n.ABI.Clear(&labi.ClearRequest{}); err != nil {
 		return err
 	}
@@ -217,6 +229,11 @@ func (n *Node) Stop(graceful, power bool) {
 		return
 	}
 	n.Up = false
+	n.CrashArmed = false
+	n.armPending = false
+	if n.FS != nil {
+		n.FS.Disarm() // the simulator itself closes the databases below: no armed crash point may fire in that
+	}
 	n.cancel()
 	if n.done != nil {
 		close(n.done)
@@ -254,4 +271,20 @@ func (n *Node) Finalized() uint32 {
 		panic(fmt.Sprintf("%s: GetFinalizedHeight: %v", n.Name, err))
 	}
 	return f
+}
+
+// eagerConsensus is the executer as the generator sees it: the hand-off of a generated block (AddInternal) is an
+// observation point. (Letting the consensus loop take the block at that very moment, as a concurrent executer goroutine
+// could, was tried and dropped: the generator still holds the application's execution context at that point, block
+// execution fails with "state machine is already initialized" and the block is lost - see DESIGN 10.5.)
+type eagerConsensus struct {
+	*consensus.Executer
+	n *Node
+}
+
+func (e *eagerConsensus) AddInternal(block *blockchain.Block) {
+	if e.n.OnHandOff != nil {
+		e.n.OnHandOff(e.n, block)
+	}
+	e.Executer.AddInternal(block)
 }
